@@ -955,6 +955,64 @@ def sortcmp(ctx):
                         {strip_generics(x).rsplit("::", 1)[-1] for x in callee_paths(et)} & {"cmp"} and \
                         et["dest"]["l"] == 0 and len(et["args"]) == 2:
                     tie = (side(et["args"][0]), side(et["args"][1]), cfa.loc(arms[0]))
+        if tie is None and prim is not None:
+            # `match a.partial_cmp(b) { Some(ord) if ord != Equal => ord, _ => i1.cmp(i2) }`:
+            # the primary result is returned only on the edge where it was found different from
+            # Equal; every other path returns the second comparison
+            from flow import bool_switch_targets as _bst
+            ties = [(cb, ct) for cb, ct in cfa.calls()
+                    if {strip_generics(x).rsplit("::", 1)[-1] for x in callee_paths(ct)} & {"cmp"}
+                    and ct["dest"]["l"] == 0 and not ct["dest"]["p"] and len(ct["args"]) == 2]
+            prim_calls = [(cb, ct) for cb, ct in cfa.calls()
+                          if {strip_generics(x).rsplit("::", 1)[-1] for x in callee_paths(ct)} & {"partial_cmp", "total_cmp", "cmp"}
+                          and not (ct["dest"]["l"] == 0 and not ct["dest"]["p"])]
+            if len(ties) == 1 and len(prim_calls) == 1:
+                pdest = prim_calls[0][1]["dest"]["l"]
+
+                def is_payload(op):
+                    pl_ = op_place(op)
+                    for _ in range(6):
+                        if pl_ is None:
+                            return False
+                        if pl_["l"] == pdest:
+                            return True
+                        d_ = cfa.single_def(pl_["l"])
+                        if d_ is None or d_[2] != "assign":
+                            return False
+                        pl_ = op_place(d_[3]["op"]) if d_[3]["k"] == "use" else d_[3].get("place") if d_[3]["k"] == "ref" else None
+                    return False
+                rets = [(b2, s2) for b2, i2, s2 in cfa.stmts()
+                        if "lhs" in s2 and s2["lhs"]["l"] == 0 and not s2["lhs"]["p"]]
+                guarded = bool(rets)
+                for b2, s2 in rets:
+                    if not (s2["rv"]["k"] == "use" and is_payload(s2["rv"]["op"])):
+                        guarded = False
+                        continue
+                    okg = False
+                    for db in cfa.dominators().get(b2, ()):
+                        dt = cfa.term(db)
+                        if dt["k"] != "switch":
+                            continue
+                        o_ = cfa.origin(dt["op"])
+                        if o_[0] != "call" or len(o_[2]["args"]) != 2:
+                            continue
+                        on_ = {strip_generics(x).rsplit("::", 1)[-1] for x in callee_paths(o_[2])}
+                        if not (on_ & {"ne", "eq"}):
+                            continue
+                        a_, b_ = o_[2]["args"]
+                        ks = [cfa.origin(x) for x in (a_, b_)]
+                        eqc = [x for x in ks if x[0] == "const" and x[1].get("int") == 0]
+                        if not eqc or not (is_payload(a_) or is_payload(b_)):
+                            continue
+                        f_t, t_t = _bst(dt)
+                        diff_edge = t_t if "ne" in on_ else f_t
+                        other = f_t if "ne" in on_ else t_t
+                        if b2 in cfa.reachable(diff_edge, avoid={other}) and b2 not in cfa.reachable(other, avoid={diff_edge}):
+                            okg = True
+                    guarded = guarded and okg
+                if guarded:
+                    tb_, tt_ = ties[0]
+                    tie = (side(tt_["args"][0]), side(tt_["args"][1]), cfa.loc(tb_))
         okp = prim is not None and prim[0][0] == "b" and prim[1][0] == "a" and prim[0][1] == prim[1][1]
         ctx.ob("SORTCMP", "%s|sort|%d|frequency-descending" % (p, k), okp, fa.loc(b),
                "primary key: second.%s compared with first.%s (non-increasing frequency)"
